@@ -27,6 +27,10 @@ func runC01(c *core.Ctx) {
 	c.RuleDoc("R01.3", "name relations in the key-value FS are tested on path-element boundaries")
 	c.RuleDoc("R01.5", "Rename moves the record it loaded, it constructs none")
 	c.RuleDoc("R01.6", "the flag OpenFile was called with reaches the handle it returns on every path")
+	c.RuleDoc("R01.7", "an entry is created only below an existing directory (os: ENOTDIR / ENOENT) — the analysis of R03.1")
+	c.RuleDoc("R01.8", "a record is stored under a path only where that path was found absent or not a directory (os: rename of a file onto a directory fails) — the analysis of R03.5")
+	c.RuleDoc("R01.9", "the in-memory listing compares child names with constants only")
+	c.RuleDoc("R01.10", "Chmod, Stat, Rename, reads, seeks, ReadDir and Close never store a modification time")
 	c.RuleDoc("R01.4", "MkdirAll reports success only after the path's ancestors and the path itself were classified")
 	for _, p := range c.Progs {
 		c.SetProg(p)
@@ -41,6 +45,13 @@ func runC01(c *core.Ctx) {
 		r01MkdirAll(c, p, sh)
 		r01RenameCarriesRecord(c, p, sh)
 		r01FlagReachesHandle(c, p, sh, "R01.6")
+		if sh.saveFn != nil && len(sh.setFns) > 0 && len(sh.ctorFns) > 0 {
+			r03Creates(c, p, sh, "R01.7", "R01.8")
+		} else {
+			c.Hard("anchor: keyvalue.FS shape (set functions, constructors, save)")
+		}
+		r01ListingFilter(c, p)
+		r01ModTimeWriters(c, p, sh)
 	}
 	c.Floor("R01.1", 240)
 	c.Floor("R01.2", 4)
@@ -48,6 +59,10 @@ func runC01(c *core.Ctx) {
 	c.Floor("R01.4", 1)
 	c.Floor("R01.5", 1)
 	c.Floor("R01.6", 1)
+	c.Floor("R01.7", 5)
+	c.Floor("R01.8", 5)
+	c.Floor("R01.9", 1)
+	c.Floor("R01.10", 10)
 }
 
 type openSituation struct {
@@ -978,4 +993,198 @@ func r01FlagReachesHandle(c *core.Ctx, p *load.Program, sh *kvShape, rule string
 	default:
 		c.OK(rule, key, p.Pos(fn.Pos()), "on every path that returns a handle the flag was stored into its record or passed to its constructor")
 	}
+}
+
+// ---- R01.9: the in-memory store lists a key as a child by its position only ----
+
+// r01ListingFilter: in the listing function of the in-memory record (ReadDirNames), a child name — the remainder of a
+// key after the directory prefix was cut off — is compared for (in)equality only with constants ("." for the root's own
+// record). A comparison with a variable string (the directory's own path, another key) hides the child that happens
+// to carry that name: the tree differs from os for one unusual name.
+func r01ListingFilter(c *core.Ctx, p *load.Program) {
+	recI := ifaceOf(p, "keyvalue", "FileRecord")
+	var fns []*ssa.Function
+	if recI != nil {
+		for _, n := range implementers(p, recI) {
+			if n.Obj().Pkg() == nil || !strings.HasSuffix(n.Obj().Pkg().Path(), "/mem") {
+				continue
+			}
+			if m := methodsOf(p, n)["ReadDirNames"]; m != nil {
+				fns = append(fns, m)
+			}
+		}
+	}
+	if len(fns) == 0 {
+		c.Hard("anchor: ReadDirNames of the in-memory FileRecord")
+		return
+	}
+	for _, fn := range fns {
+		all := append([]*ssa.Function{fn}, fn.AnonFuncs...)
+		trimmed := 0
+		var bad *ssa.BinOp
+		for _, f := range all {
+			ssax.Instrs(f, func(ins ssa.Instruction) {
+				if cl, ok := ins.(*ssa.Call); ok && (ssax.CalleeIs(cl, "strings", "TrimPrefix") || ssax.CalleeIs(cl, "strings", "CutPrefix")) {
+					trimmed++
+				}
+				bo, ok := ins.(*ssa.BinOp)
+				if !ok || bo.Op != token.EQL && bo.Op != token.NEQ || !isStr(bo.X.Type()) {
+					return
+				}
+				rel := func(v ssa.Value) bool { return derivesFromTrim(v, 0, map[ssa.Value]bool{}) }
+				konst := func(v ssa.Value) bool { _, ok := v.(*ssa.Const); return ok }
+				if rel(bo.X) && !konst(bo.Y) && !rel(bo.Y) || rel(bo.Y) && !konst(bo.X) && !rel(bo.X) {
+					bad = bo
+				}
+			})
+		}
+		key := fname(fn) + "|child-name-compared-with-constants-only"
+		switch {
+		case trimmed == 0:
+			c.Hard("anchor: %s cuts no directory prefix off the keys (strings.TrimPrefix)", fname(fn))
+		case bad != nil:
+			c.Bad("R01.9", key, p.Pos(bad.Pos()), fmt.Sprintf("%s compares a child name (a key with the directory prefix cut off) with a variable string: the child that happens to carry that name (a directory 'src' containing 'src/src') is left out of the listing, so ReadDir omits it and Remove of the non-empty directory succeeds — os lists it and refuses the Remove", fname(fn)))
+		default:
+			c.OK("R01.9", key, p.Pos(fn.Pos()), "child names are compared with constants only")
+		}
+	}
+}
+
+func derivesFromTrim(v ssa.Value, depth int, seen map[ssa.Value]bool) bool {
+	if v == nil || depth > 10 || seen[v] {
+		return false
+	}
+	seen[v] = true
+	switch x := v.(type) {
+	case *ssa.Call:
+		return ssax.CalleeIs(x, "strings", "TrimPrefix") || ssax.CalleeIs(x, "strings", "CutPrefix")
+	case *ssa.Extract:
+		return derivesFromTrim(x.Tuple, depth+1, seen)
+	case *ssa.Phi:
+		for _, e := range x.Edges {
+			if derivesFromTrim(e, depth+1, seen) {
+				return true
+			}
+		}
+	case *ssa.UnOp:
+		if x.Op == token.MUL {
+			if a, ok := x.X.(*ssa.Alloc); ok {
+				stores, _ := ssax.CellStores(a)
+				for _, st := range stores {
+					if derivesFromTrim(st.Val, depth+1, seen) {
+						return true
+					}
+				}
+			}
+		}
+	}
+	return false
+}
+
+// ---- R01.10: who may change a modification time ----
+
+// r01ModTimeWriters: the modification-time field of a key-value handle is the field Chtimes stores its argument into.
+// No store to it is reachable (static calls inside package keyvalue) from the operations that leave the modification
+// time alone in package os: Chmod (by path and by handle), Stat, Rename, the read and seek methods, ReadDir, Close.
+func r01ModTimeWriters(c *core.Ctx, p *load.Program, sh *kvShape) {
+	cht := sh.methods["Chtimes"]
+	if cht == nil {
+		c.Hard("anchor: keyvalue.FS.Chtimes")
+		return
+	}
+	var field *types.Var
+	ssax.Instrs(cht, func(ins ssa.Instruction) {
+		st, ok := ins.(*ssa.Store)
+		if !ok {
+			return
+		}
+		fa, ok := st.Addr.(*ssa.FieldAddr)
+		if !ok {
+			return
+		}
+		if _, isParam := st.Val.(*ssa.Parameter); isParam && strings.HasSuffix(st.Val.Type().String(), "time.Time") {
+			field = fieldVarOf(fa)
+		}
+	})
+	if field == nil {
+		c.Hard("anchor: the field Chtimes stores the modification time into")
+		return
+	}
+	writes := map[*ssa.Function]token.Pos{}
+	for _, fn := range pkgFuncs(p, "keyvalue") {
+		ssax.Instrs(fn, func(ins ssa.Instruction) {
+			if st, ok := ins.(*ssa.Store); ok {
+				if fa, ok := st.Addr.(*ssa.FieldAddr); ok && fieldVarOf(fa) == field {
+					writes[fn] = st.Pos()
+				}
+			}
+		})
+	}
+	var reach func(fn *ssa.Function, seen map[*ssa.Function]bool) (*ssa.Function, []string)
+	reach = func(fn *ssa.Function, seen map[*ssa.Function]bool) (*ssa.Function, []string) {
+		if seen[fn] {
+			return nil, nil
+		}
+		seen[fn] = true
+		if _, ok := writes[fn]; ok {
+			return fn, []string{fname(fn)}
+		}
+		var hit *ssa.Function
+		var trail []string
+		ssax.InstrsDeep(fn, func(_ *ssa.Function, ins ssa.Instruction) {
+			if hit != nil {
+				return
+			}
+			ci, ok := ins.(ssa.CallInstruction)
+			if !ok {
+				return
+			}
+			if callee := ssax.StaticCallee(ci); callee != nil && p.InModule(callee) && callee.Blocks != nil {
+				if h, t := reach(callee, seen); h != nil {
+					hit, trail = h, append([]string{fname(fn)}, t...)
+				}
+			}
+		})
+		return hit, trail
+	}
+	fileT := p.Named("keyvalue", "file")
+	var fm map[string]*ssa.Function
+	if fileT != nil {
+		fm = methodSetFuncs(p, fileT)
+	}
+	type ent struct {
+		name string
+		fn   *ssa.Function
+	}
+	var ents []ent
+	for _, n := range []string{"Chmod", "Stat", "Rename"} {
+		ents = append(ents, ent{"FS." + n, sh.methods[n]})
+	}
+	for _, n := range []string{"Chmod", "Stat", "Read", "ReadAt", "Seek", "ReadDir", "Close"} {
+		ents = append(ents, ent{"file." + n, fm[n]})
+	}
+	for _, e := range ents {
+		if e.fn == nil {
+			c.Hard("anchor: keyvalue %s", e.name)
+			continue
+		}
+		key := "keyvalue." + e.name + "|keeps-modtime"
+		if h, trail := reach(e.fn, map[*ssa.Function]bool{}); h != nil {
+			c.Bad("R01.10", key, p.Pos(writes[h]), fmt.Sprintf("keyvalue %s reaches a store to the modification time (%s): in package os this operation leaves the modification time alone, so a time set through Chtimes is replaced by the current time", e.name, strings.Join(trail, " -> ")))
+		} else {
+			c.OK("R01.10", key, p.Pos(e.fn.Pos()), "no store to the modification-time field is reachable")
+		}
+	}
+}
+
+func fieldVarOf(fa *ssa.FieldAddr) *types.Var {
+	t := fa.X.Type()
+	if pt, ok := t.Underlying().(*types.Pointer); ok {
+		t = pt.Elem()
+	}
+	st, ok := t.Underlying().(*types.Struct)
+	if !ok || fa.Field >= st.NumFields() {
+		return nil
+	}
+	return st.Field(fa.Field)
 }
